@@ -3,6 +3,7 @@ import HmfVerif.Gen.ExprTransfer
 import HmfVerif.Gen.ExprFlow
 import HmfVerif.Spec.Transfer
 import HmfVerif.Proofs.ExprLemmas
+import Mathlib.Analysis.Convex.SpecificFunctions.Basic
 /-!
 # C10 — transfer functions are pointwise in k, reach 1 on large scales, never exceed 1
 -/
@@ -100,5 +101,170 @@ end
 /-- … and mentions the grid parameters nowhere: its value at a wavenumber cannot depend on `lnk_min`, `lnk_max`, `dlnk`
     except through the normalisation constant -/
 theorem transfer_function_inputs : Gen.Flow.Transfer_transfer_function.freeVars = ["_normalisation", "_unnormalised_lnT"] := by decide
+
+/-! ## BBKS decreases monotonically with k -/
+/-- ln(1+x)/x is non-increasing on (0, ∞) (concavity of the logarithm) -/
+theorem log_one_add_div_antitone (x y : ℝ) (hx : 0 < x) (hxy : x ≤ y) :
+    Real.log (1 + y) / y ≤ Real.log (1 + x) / x := by
+  have hy : 0 < y := lt_of_lt_of_le hx hxy
+  have hc := strictConcaveOn_log_Ioi.concaveOn
+  have h1 : (1:ℝ) ∈ Set.Ioi (0:ℝ) := by simp
+  have h2 : (1 + y) ∈ Set.Ioi (0:ℝ) := by simp; linarith
+  have ht0 : 0 ≤ x / y := by positivity
+  have ht1 : 0 ≤ 1 - x / y := by rw [sub_nonneg, div_le_one hy]; exact hxy
+  have := hc.2 h1 h2 ht1 ht0 (by ring)
+  simp only [smul_eq_mul, Real.log_one, mul_zero, zero_add] at this
+  have e : (1 - x / y) * 1 + x / y * (1 + y) = 1 + x := by field_simp; ring
+  rw [e] at this
+  rw [div_le_div_iff₀ hy hx]
+  have : x / y * Real.log (1 + y) * y ≤ Real.log (1 + x) * y := mul_le_mul_of_nonneg_right this hy.le
+  have e2 : x / y * Real.log (1 + y) * y = Real.log (1 + y) * x := by field_simp
+  linarith
+
+/-- BBKS: T decreases monotonically with q (a > 0; b, c-term, d, e-term with non-negative odd coefficients) -/
+theorem BBKS_antitone (a b c d e q1 q2 : ℝ) (ha : 0 < a) (hb : 0 ≤ b) (hd : 0 ≤ d) (hq1 : 0 < q1) (hq : q1 ≤ q2) :
+    Real.log (1 + a*q2) / (a*q2) * (1 + b*q2 + (c*q2)^2 + (d*q2)^3 + (e*q2)^4) ^ (-(1/4 : ℝ)) ≤
+    Real.log (1 + a*q1) / (a*q1) * (1 + b*q1 + (c*q1)^2 + (d*q1)^3 + (e*q1)^4) ^ (-(1/4 : ℝ)) := by
+  have hq2 : 0 < q2 := lt_of_lt_of_le hq1 hq
+  have hg := log_one_add_div_antitone (a*q1) (a*q2) (mul_pos ha hq1) (mul_le_mul_of_nonneg_left hq ha.le)
+  have hP1 : 0 < 1 + b*q1 + (c*q1)^2 + (d*q1)^3 + (e*q1)^4 := by positivity
+  have hP : 1 + b*q1 + (c*q1)^2 + (d*q1)^3 + (e*q1)^4 ≤ 1 + b*q2 + (c*q2)^2 + (d*q2)^3 + (e*q2)^4 := by
+    have h1 : b*q1 ≤ b*q2 := mul_le_mul_of_nonneg_left hq hb
+    have h2 : (c*q1)^2 ≤ (c*q2)^2 := by
+      rw [mul_pow, mul_pow]; exact mul_le_mul_of_nonneg_left (pow_le_pow_left₀ hq1.le hq 2) (sq_nonneg c)
+    have h3 : (d*q1)^3 ≤ (d*q2)^3 := pow_le_pow_left₀ (by positivity) (mul_le_mul_of_nonneg_left hq hd) 3
+    have h4 : (e*q1)^4 ≤ (e*q2)^4 := by
+      rw [mul_pow, mul_pow]; exact mul_le_mul_of_nonneg_left (pow_le_pow_left₀ hq1.le hq 4) (by positivity)
+    linarith
+  have hpow := rpow_le_rpow_of_nonpos hP1 hP (by norm_num : (-(1/4:ℝ)) ≤ 0)
+  have hg2 : 0 ≤ Real.log (1 + a*q2) / (a*q2) := by
+    apply div_nonneg (Real.log_nonneg (by nlinarith [mul_pos ha hq2])) (mul_pos ha hq2).le
+  have hp1 : 0 ≤ (1 + b*q1 + (c*q1)^2 + (d*q1)^3 + (e*q1)^4) ^ (-(1/4 : ℝ)) := rpow_nonneg hP1.le _
+  exact mul_le_mul hg hpow (rpow_nonneg (by positivity) _) (le_trans hg2 hg)
+
+/-- C10 (BBKS, a no-wiggle model): ln T of the generated term decreases monotonically in ln k -/
+theorem BBKS_lnT_antitone (opq : String → ℝ → ℝ) (ρ : String → ℝ) (hO : 0 < ρ "cosmo.Om0") (hh : 0 < ρ "cosmo.h")
+    (ha : 0 < ρ "p.a") (hb : 0 ≤ ρ "p.b") (hd : 0 ≤ ρ "p.d") (l1 l2 : ℝ) (hl : l1 ≤ l2) :
+    evalR opq (Function.update ρ "lnk" l2) Gen.Transfer.BBKS_lnt ≤ evalR opq (Function.update ρ "lnk" l1) Gen.Transfer.BBKS_lnt := by
+  rw [BBKS_lnt_form, BBKS_lnt_form]
+  have hne : ∀ s : String, s ≠ "lnk" → ∀ l, Function.update ρ "lnk" l s = ρ s := fun s hs l => Function.update_of_ne hs l ρ
+  simp only [Function.update_self, hne "cosmo.Om0" (by decide), hne "cosmo.h" (by decide), hne "cosmo.Ob0" (by decide),
+    hne "p.a" (by decide), hne "p.b" (by decide), hne "p.c" (by decide), hne "p.d" (by decide), hne "p.e" (by decide)]
+  set C := exp (ρ "cosmo.Ob0" + sqrt (2 * ρ "cosmo.h") * ρ "cosmo.Ob0" / ρ "cosmo.Om0") with hC
+  have hCp : 0 < C := exp_pos _
+  have hq1 : 0 < exp l1 / (ρ "cosmo.Om0" * ρ "cosmo.h") * C := by positivity
+  have hq : exp l1 / (ρ "cosmo.Om0" * ρ "cosmo.h") * C ≤ exp l2 / (ρ "cosmo.Om0" * ρ "cosmo.h") * C := by
+    apply mul_le_mul_of_nonneg_right _ hCp.le
+    exact div_le_div_of_nonneg_right (exp_le_exp.mpr hl) (by positivity)
+  obtain ⟨hpos2, _⟩ := BBKS_range (ρ "p.a") (ρ "p.b") (ρ "p.c") (ρ "p.d") (ρ "p.e") _ ha hb hd (lt_of_lt_of_le hq1 hq)
+  exact Real.log_le_log hpos2 (BBKS_antitone _ _ _ _ _ _ _ ha hb hd hq1 hq)
+
+/-! ## Bond–Efstathiou on the generated term: bounds and monotone decrease -/
+section BondEfsGen
+variable (opq : String → ℝ → ℝ) (ρ : String → ℝ)
+/-- the generated Bond–Efstathiou term is ln of the documented expression at the code's own scaled wavenumber -/
+theorem BondEfs_lnt_form : evalR opq ρ Gen.Transfer.BondEfs_lnt =
+    let s := 0.3 * 0.75 ^ 2 / (ρ "cosmo.Om0" * ρ "cosmo.h" ^ 2)
+    let k := exp (ρ "lnk")
+    Real.log ((1 + (ρ "p.a" * s * k + (ρ "p.b" * s * k) ^ (1.5:ℝ) + (ρ "p.c" * s * k) ^ 2) ^ ρ "p.nu") ^ (-1 / ρ "p.nu")) := by
+  rw [BondEfs_eq]
+  simp only [BondEfs_lnt, beT, beScale]; expr_unfold; push_cast; norm_num
+
+theorem beX_mono (a b c s k1 k2 : ℝ) (ha : 0 ≤ a) (hb : 0 ≤ b) (hs : 0 < s) (hk1 : 0 < k1) (hk : k1 ≤ k2) :
+    0 ≤ a * s * k1 + (b * s * k1) ^ (1.5:ℝ) + (c * s * k1) ^ 2 ∧
+    a * s * k1 + (b * s * k1) ^ (1.5:ℝ) + (c * s * k1) ^ 2 ≤ a * s * k2 + (b * s * k2) ^ (1.5:ℝ) + (c * s * k2) ^ 2 := by
+  have hk2 : 0 < k2 := lt_of_lt_of_le hk1 hk
+  have h1 : a * s * k1 ≤ a * s * k2 := mul_le_mul_of_nonneg_left hk (by positivity)
+  have h2 : (b * s * k1) ^ (1.5:ℝ) ≤ (b * s * k2) ^ (1.5:ℝ) :=
+    rpow_le_rpow (by positivity) (mul_le_mul_of_nonneg_left hk (by positivity)) (by norm_num)
+  have h3 : (c * s * k1) ^ 2 ≤ (c * s * k2) ^ 2 := by
+    have e1 : (c * s * k1) ^ 2 = (c * s) ^ 2 * k1 ^ 2 := by ring
+    have e2 : (c * s * k2) ^ 2 = (c * s) ^ 2 * k2 ^ 2 := by ring
+    rw [e1, e2]; exact mul_le_mul_of_nonneg_left (pow_le_pow_left₀ hk1.le hk 2) (sq_nonneg _)
+  refine ⟨?_, by linarith⟩
+  have : 0 ≤ (b * s * k1) ^ (1.5:ℝ) := rpow_nonneg (by positivity) _
+  positivity
+
+/-- C10 (Bond–Efstathiou): 0 < T ≤ 1, i.e. ln T ≤ 0, for all k and valid cosmologies (a, b ≥ 0, ν > 0) -/
+theorem BondEfs_lnT_nonpos (hO : 0 < ρ "cosmo.Om0") (hh : 0 < ρ "cosmo.h") (ha : 0 ≤ ρ "p.a") (hb : 0 ≤ ρ "p.b") (hν : 0 < ρ "p.nu") :
+    evalR opq ρ Gen.Transfer.BondEfs_lnt ≤ 0 := by
+  rw [BondEfs_lnt_form]
+  have hs : (0:ℝ) < 0.3 * 0.75 ^ 2 / (ρ "cosmo.Om0" * ρ "cosmo.h" ^ 2) := by positivity
+  obtain ⟨hX, _⟩ := beX_mono (ρ "p.a") (ρ "p.b") (ρ "p.c") _ (exp (ρ "lnk")) (exp (ρ "lnk")) ha hb hs (exp_pos _) le_rfl
+  obtain ⟨h1, h2⟩ := BondEfs_range _ (ρ "p.nu") hX hν
+  exact Real.log_nonpos h1.le h2
+
+/-- C10 (Bond–Efstathiou, a no-wiggle model): ln T decreases monotonically in ln k -/
+theorem BondEfs_lnT_antitone (hO : 0 < ρ "cosmo.Om0") (hh : 0 < ρ "cosmo.h") (ha : 0 ≤ ρ "p.a") (hb : 0 ≤ ρ "p.b") (hν : 0 < ρ "p.nu")
+    (l1 l2 : ℝ) (hl : l1 ≤ l2) :
+    evalR opq (Function.update ρ "lnk" l2) Gen.Transfer.BondEfs_lnt ≤ evalR opq (Function.update ρ "lnk" l1) Gen.Transfer.BondEfs_lnt := by
+  rw [BondEfs_lnt_form, BondEfs_lnt_form]
+  have hne : ∀ s : String, s ≠ "lnk" → ∀ l, Function.update ρ "lnk" l s = ρ s := fun s hs l => Function.update_of_ne hs l ρ
+  simp only [Function.update_self, hne "cosmo.Om0" (by decide), hne "cosmo.h" (by decide),
+    hne "p.a" (by decide), hne "p.b" (by decide), hne "p.c" (by decide), hne "p.nu" (by decide)]
+  have hs : (0:ℝ) < 0.3 * 0.75 ^ 2 / (ρ "cosmo.Om0" * ρ "cosmo.h" ^ 2) := by positivity
+  obtain ⟨hX, hXY⟩ := beX_mono (ρ "p.a") (ρ "p.b") (ρ "p.c") _ (exp l1) (exp l2) ha hb hs (exp_pos _) (exp_le_exp.mpr hl)
+  obtain ⟨h1, _⟩ := BondEfs_range _ (ρ "p.nu") (le_trans hX hXY) hν
+  exact Real.log_le_log h1 (BondEfs_antitone _ _ _ hX hXY hν)
+end BondEfsGen
+
+/-! ## Eisenstein & Hu (1998) without BAO: documented shape at the code's own q_eff, bounds, large-scale value -/
+section EHNoBAO
+open Real
+/-- the effective wavenumber sub-term of a term shaped like EH98 eqs. 28–29: ln( L/(L + C q²) ) -/
+def ehQ : E → E
+  | .un .log (.bin .div _ (.bin .add _ (.bin .mul (.bin .mul _ q) _))) => q
+  | _ => .lit 0 0
+
+/-- Eisenstein & Hu (1998) eqs. 28–29 as a term over q_eff: L₀ = ln(2e + 1.8 q), C₀ = 14.2 + 731/(1 + 62.5 q),
+    ln T = ln( L₀/(L₀ + C₀ q²) ) -/
+def ehShape (q : E) : E :=
+  let L : E := .un .log (.bin .add (.bin .mul (.lit 2 0) (.un .exp (.lit 1 0))) (.bin .mul (.lit 18 (-1)) q))
+  let C : E := .bin .add (.lit 142 (-1)) (.bin .div (.lit 731 0) (.bin .add (.lit 1 0) (.bin .mul (.lit 625 (-1)) q)))
+  .un .log (.bin .div L (.bin .add L (.bin .mul (.bin .mul C q) q)))
+
+/-- the regenerated EH_NoBAO body is exactly that shape at its own q_eff -/
+theorem EH_NoBAO_shape : Gen.Transfer.EH_NoBAO_lnt = ehShape (ehQ Gen.Transfer.EH_NoBAO_lnt) := by rfl
+
+theorem eh_range (x : ℝ) (hx : 0 ≤ x) :
+    let L := Real.log (2 * exp 1 + 1.8 * x)
+    let C := 14.2 + 731 / (1 + 62.5 * x)
+    0 < L / (L + C * x * x) ∧ L / (L + C * x * x) ≤ 1 := by
+  intro L C
+  have he : (2:ℝ) < 2 * exp 1 := by
+    have := Real.add_one_le_exp (1:ℝ); linarith
+  have hL : 0 < L := Real.log_pos (by nlinarith)
+  have hC : 0 < C := by positivity
+  have hden : 0 < L + C * x * x := by have : 0 ≤ C * x * x := by positivity
+                                      linarith
+  refine ⟨div_pos hL hden, ?_⟩
+  rw [div_le_one hden]
+  have : 0 ≤ C * x * x := by positivity
+  linarith
+
+variable (opq : String → ℝ → ℝ) (ρ : String → ℝ)
+
+theorem ehShape_eval (q : E) : evalR opq ρ (ehShape q) =
+    Real.log (Real.log (2 * exp 1 + 1.8 * evalR opq ρ q) /
+      (Real.log (2 * exp 1 + 1.8 * evalR opq ρ q) + (14.2 + 731 / (1 + 62.5 * evalR opq ρ q)) * evalR opq ρ q * evalR opq ρ q)) := by
+  simp only [ehShape]; expr_unfold; push_cast; norm_num
+
+/-- C10 (EH without BAO): 0 < T ≤ 1, i.e. ln T ≤ 0, for every wavenumber and cosmology with q_eff ≥ 0 -/
+theorem EH_NoBAO_lnT_nonpos (hq : 0 ≤ evalR opq ρ (ehQ Gen.Transfer.EH_NoBAO_lnt)) :
+    evalR opq ρ Gen.Transfer.EH_NoBAO_lnt ≤ 0 := by
+  rw [EH_NoBAO_shape, ehShape_eval]
+  obtain ⟨h1, h2⟩ := eh_range _ hq
+  exact Real.log_nonpos h1.le h2
+
+/-- C10 (EH without BAO): T → 1 on large scales — at q_eff = 0 the value is exactly ln 1 = 0 -/
+theorem EH_NoBAO_large_scale (hq : evalR opq ρ (ehQ Gen.Transfer.EH_NoBAO_lnt) = 0) :
+    evalR opq ρ Gen.Transfer.EH_NoBAO_lnt = 0 := by
+  rw [EH_NoBAO_shape, ehShape_eval, hq]
+  have he : (2:ℝ) < 2 * exp 1 := by
+    have := Real.add_one_le_exp (1:ℝ); linarith
+  have hL : 0 < Real.log (2 * exp 1 + 1.8 * 0) := Real.log_pos (by linarith)
+  simp only [mul_zero, add_zero] at hL ⊢
+  rw [div_self hL.ne', Real.log_one]
+end EHNoBAO
 
 end Hmf.C10
